@@ -72,13 +72,16 @@ func describe(bar *colarspb.BatchArrowRecords) []string {
 }
 
 type consumeResult struct {
-	Class string
-	Msg   string
-	Site  string
-	Items int
-	Canon string
-	Trees itemsOut
+	Class   string
+	Msg     string
+	Site    string
+	Items   int
+	Canon   string
+	Trees   itemsOut
 	Decoded [][3]string
+	// per span, in row order: the events / links the real consumer attached (group key, attributes)
+	DecodedEvents [][]string
+	DecodedLinks  [][]string
 }
 
 func consumeAny(c *arrow_record.Consumer, signal string, bar *colarspb.BatchArrowRecords) (res consumeResult) {
@@ -97,6 +100,7 @@ func consumeAny(c *arrow_record.Consumer, signal string, bar *colarspb.BatchArro
 			res.Canon += canonTraces(td)
 			res.Trees = tracesItems(td)
 			res.Decoded = decodedTraces(td)
+			res.DecodedEvents, res.DecodedLinks = decodedChildren(td)
 		}
 		if e == nil && len(tds) == 0 {
 			res.Items = -1
